@@ -1006,6 +1006,45 @@ pub fn run(session: &Session, prop: &'static RefProp, rule: &str) -> i32 {
         session.set_extra("binder_scope_cases", json!(cases.len()));
         session.run_enum(prop, cases);
     }
+    if (prop.id == "C06" || prop.id == "C11") && !session.stopped() {
+        // an identifier that merely begins with a word of the language (a type name or a keyword) is an
+        // identifier wherever a name can stand: declared, read, made into a cell, as parameter, as the
+        // predicate after `?`, as the binder of a match arm / if-set / for, in a condition, as a field, in
+        // a slice bound. Every form has the value 6.
+        let mut keyword_cases = vec![];
+        for n in crate::genr::prog::KEYWORD_PREFIXED_NAMES {
+            let forms: Vec<String> = if prop.id == "C11" {
+                vec![
+                    format!("{n} := (x: int) -> bool {{ return x > 1; }}; [1, 2, 3]~ ? {n} $+ + 1"),
+                    format!("{n} := (x: int) -> bool {{ return x > 1; }}; it := [1, 2, 3]~; y := it ? {n}; (y $+) + 1"),
+                    format!("{n} := (x: int) -> int {{ return x + 1; }}; [1, 2]~ @ {n} $+ + 1"),
+                    format!("{n} := [1, 2, 3]~; {n} $+"),
+                    format!("{n} := (a: int, x: int) -> int {{ return a + x; }}; [1, 2, 3]~ $ 0 {n}"),
+                ]
+            } else {
+                vec![
+                    format!("{n} := 5; {n} + 1"),
+                    format!("{n} := 5; c := mut {n}; *c + 1"),
+                    format!("f := ({n}: int) -> int {{ return {n} + 1; }}; f(5)"),
+                    format!("m := match 5 {{ {n}: int => {n} + 1, => 0, }}; m"),
+                    format!("r := if {n}: int = 5 {{ {n} + 1 }} else {{ 0 }}; r"),
+                    format!("s := mut 0; for {n} in [5]~ {{ s += {n} + 1; }}; *s"),
+                    format!("{n} := 5; if {n} > 1 {{ {n} + 1 }} else {{ 0 }}"),
+                    format!("t := struct{{{n} := 5}}; t.{n} + 1"),
+                    format!("{n} := 2; [4, 5, 6, 7][{n}:][0:1][0] "),
+                    format!("{n} := 5; f := () -> int {{ return {n} + 1; }}; f()"),
+                    format!("{n} := mut 4; loop {{ {n} += 2; break; }}; *{n}"),
+                    format!("({n}, k) := (5, 1); {n} + k"),
+                    format!("m := mod {{ {n} := 5; }}; m.{n} + 1"),
+                ]
+            };
+            for text in forms {
+                keyword_cases.push(json!({"kind": "probe", "sig": format!("{}:keyword-prefixed-name", prop.id), "text": text, "expected": "value 6"}));
+            }
+        }
+        session.set_extra("keyword_prefixed_name_cases", json!(keyword_cases.len()));
+        session.run_enum(prop, keyword_cases);
+    }
     if prop.id == "C11" && !session.stopped() {
         // an adapter keeps no memory of its source having ended: a source that reports the end and later
         // yields again (a queue that is refilled) is pulled again by every stage above it
